@@ -337,6 +337,33 @@ def scale_jobs(rng, q):
     return out
 
 
+def mid_jobs(rng, q):
+    """the other routines beyond the small sizes, as far as the 32-bit residual / bound clauses reach
+    (12..24 nodes; the spec skips what exceeds its magnitude preconditions): dense connected
+    (di)graphs, regular circulants (PageRank's lcm of the column sums stays small), cycles, paths,
+    complete bipartite graphs."""
+    out = []
+    for rep in range(1 if q else 4):
+        n = rng.randint(12, 24)
+        A = inputs.rand_graph(rng, n, rng.choice([0.4, 0.6]), und=True, connected=True)
+        out += walk_jobs(A, "mid:dense-und%d" % n, rng, falff=rng.random() < 0.5, p_plain=0.4)
+        n = rng.randint(12, 24)
+        A = inputs.rand_graph(rng, n, rng.choice([0.3, 0.5]), und=False, connected=True)
+        out += walk_jobs(A, "mid:dense-dir%d" % n, rng, falff=rng.random() < 0.5, p_plain=0.4)
+        n = rng.randint(12, 24)
+        offs = [1] + rng.sample(range(2, n), rng.randint(1, 4))
+        A = inputs.mat_from_edges(n, circulant(n, offs), und=False)
+        out += walk_jobs(A, "mid:circulant%d/%d" % (n, len(offs)), rng, falff=True, p_plain=0.4)
+        n = rng.randint(12, 24)
+        A = und(n, cycle(n))
+        out += walk_jobs(A, "mid:C%d" % n, rng, p_plain=0.4)
+        for name, edges_of in [("C", cycle), ("P", lambda n: [(i, i + 1) for i in range(n - 1)]),
+                               ("circ12-", lambda n: circulant(n, [1, 2])), ("K3,", lambda n: bipartite(3, n - 3))]:
+            n = rng.randint(12, 20)
+            out += spectral_jobs(und(n, edges_of(n)), "mid:%s%d" % (name, n), rng, p_plain=0.4)
+    return out
+
+
 def build_jobs(ctx):
     rng = random.Random(ctx.seed)
     q = ctx.quick
@@ -457,6 +484,7 @@ def build_jobs(ctx):
         jobs += spectral_jobs(A, src, rng, p_plain=0.4)
     # ---- findwalks in the other regimes of scale (own RNG stream: the draws above stay as they were)
     jobs += scale_jobs(random.Random(ctx.seed * 1000003 + 18), q)
+    jobs += mid_jobs(random.Random(ctx.seed * 1000003 + 19), q)
     return jobs
 
 
@@ -476,7 +504,17 @@ def run(ctx):
     ctx.parallel(models, width=3)
     jobs = build_jobs(ctx)
     recs = pool.run_jobs(__name__, jobs)
-    verdicts = ctx.validate(TLA, CFG, recs)
+    # the scale-regime records are large (n^3 encoded counts each): their own small batches, next to
+    # the batches of the small records
+    big = [k for k, j in enumerate(jobs) if j.get("big")]
+    small = [k for k, j in enumerate(jobs) if not j.get("big")]
+    parts = ctx.parallel([lambda: ctx.validate(TLA, CFG, [recs[k] for k in small]),
+                          lambda: ctx.validate(TLA, CFG, [recs[k] for k in big], tag="Trace_RandomWalk_scale", chunk=10)],
+                         width=2)
+    verdicts = [None] * len(jobs)
+    for ks, vs in zip((small, big), parts):
+        for k, v in zip(ks, vs):
+            verdicts[k] = v
     ctx.judge(jobs, rc.tag_failures(ctx, jobs, recs, verdicts), verdicts, what)
     ctx.extra["argument_variants"] = rc.variant_counts(jobs)
     seen, per = set(), {}
@@ -511,7 +549,8 @@ def run(ctx):
                 "K(a,a), long cycles, circulant digraphs, clique + path, shuffled numbering, all argument "
                 "dtypes/layouts - judged on a mantissa/exponent/residue encoding (non-negative; exact below 2^24 "
                 "and, mod 999983, below 2^53; slice recurrence, regular-graph row sums and totals to 24 bits).  "
-                "non-trivial = distinct (routine, input) "
+                "The other routines also on 12..24 nodes (dense, circulant, cycle, path, K(3,b)) as far as the "
+                "32-bit clauses reach.  non-trivial = distinct (routine, input) "
                 "with n >= 3 and at least one connection that the specification judged (not skipped)"
                 % ((("250 sampled", "up to 6 (n=4) / all (n<=3)", "up to 8", "60 sampled", "80 sampled", "150 sampled")
                     if ctx.quick else ("all", "all", "all", "all 728", "all 1606", "all 1024"))
@@ -562,7 +601,9 @@ def replay(ctx, rp):
     recs = pool.run_jobs(__name__, [job])
     verdicts = ctx.validate(TLA, CFG, recs)
     core.log("replay verdict:", verdicts[0])
-    core.log("  call: %s  A=%s %s" % (job["fn"], job["A"], {k: job[k] for k in ("dp", "dq", "f") if k in job}))
-    core.log("  observed:", {k: v for k, v in recs[0].items() if k not in ("fn", "kind", "n", "A") and v not in ([], "", -1)})
+    core.log("  call: %s  A=%s %s" % (job["fn"], job["A"] if len(job["A"]) <= 8 else "(%d nodes, %s)" % (len(job["A"]), job.get("src")),
+                                      {k: job[k] for k in ("dp", "dq", "f") if k in job}))
+    core.log("  observed:", {k: v for k, v in recs[0].items() if k not in ("fn", "kind", "n", "A", "Wm", "We", "Wr")
+                                and v not in ([], "", -1) and (len(job["A"]) <= 8 or not isinstance(v, list) or len(v) <= 3)})
     ctx.judge([job], recs, verdicts, what)
     return ctx.finish(level="other")
